@@ -116,9 +116,17 @@ package unmarshal
 //@     invariant len(arrLbls) == len(lbls)
 //@     invariant forall j int :: 0 <= j && j <= rangeindex ==> arrLbls[j] == jsonStr(lbls[j][0]) + ":" + jsonStr(lbls[j][1])
 //@     modifies elems(arrLbls)
-// Not verified here (shared cache): frame only.
-//@ func maybeAddFp
+// The de-duplication key of a series row: the hash of 16 bytes that are the
+// (little-endian) day timestamp followed by the fingerprint, so that two
+// different (day, fingerprint) pairs never share the hashed bytes. A series row
+// is emitted exactly when the cache had not seen the key.
+//@ iface (github.com/metrico/qryn/writer/utils/numbercache.ICache).CheckAndSet(key)
 //@   modifies nothing
+//@ func maybeAddFp [C04]
+//@   modifies nothing
+//@   check key-day: bs[0] + 256*bs[1] + 65536*bs[2] + 16777216*bs[3] + 4294967296*bs[4] + 1099511627776*bs[5] + 281474976710656*bs[6] + 72057594037927936*bs[7] == (dateTS >= 0 ? dateTS : dateTS + 18446744073709551616)
+//@   check key-fingerprint: bs[8] + 256*bs[9] + 65536*bs[10] + 16777216*bs[11] + 4294967296*bs[12] + 1099511627776*bs[13] + 281474976710656*bs[14] + 72057594037927936*bs[15] == fp
+//@   check key-is-hash-of-both: _fp == ch64(str(bs[:]))
 
 //@ func (*parserDoer).onEntries [C02,C03,C04]
 //@   requires sameLen(timestampsNS, message, value, types) && knownTypes(types)
